@@ -1778,7 +1778,9 @@ func (w *world) storm() {
 	wg.Add(1)
 	go func() {
 		defer wg.Done()
-		for k := 0; k < 60; k++ {
+		// ... and goes on doing so after the other feeders have finished, across the cleanup passes
+		// that settle the storm's messages (30 s after their first observation)
+		for k := 0; k < 220; k++ {
 			key := members[k%len(members)]
 			_ = w.p.gst.SetHeartbeat(simAddrs[key], peer.ID(fmt.Sprintf("storm-peer-%d", k%5)), &gossipv1.Heartbeat{NodeName: "storm", Counter: int64(k)})
 			time.Sleep(450 * time.Millisecond)
